@@ -105,6 +105,8 @@ func runC07(p *core.Program, r *core.Report) {
 	r.Rule("C07.mask", "Process() masks the password key for both separators on the Go and PHP branches whenever Dbc is non-empty", 6)
 	r.Rule("C07.selfdelim", "no UDP pack decoder decides an optional section by what is left on the stream it was handed (several packs travel in one datagram buffer: the bytes left are the next pack's); a section the writer gates on the version is gated on the version by the reader", 0)
 	ownExtentRule(p, r, "C07.selfdelim", "lang/pack/udp", "what follows the pack in the buffer (the next pack, padding) is taken for the optional section: the reader consumes bytes the writer of this pack never wrote")
+	r.Rule("C07.verbatim", "Process() takes the carried text apart as it stands: no key, value or line is passed through a text-transforming function (TrimSpace, case mapping, Replace), so what was Set comes back unchanged", 3)
+	noTransformRule(p, r, "C07.verbatim", []string{"lang/pack/udp"}, "Process")
 	r.Rule("C07.fresh-bytes", "the datagram ToBytesPack hands back is the caller's own: it is not the backing array of an output stream that is reused for the next pack (pooled, package-level)", 1)
 	freshBytesResult(p, r, "C07.fresh-bytes", []string{"lang/pack/udp"})
 	r.Rule("C07.caps", "the fields cut to a maximum length on the wire are the documented ones: no writer introduces a new length cap (a capped field no longer round-trips over the 16-bit length range)", 1)
